@@ -156,6 +156,26 @@ def states_for(st0, tier, heavy):
                     t[:, c1] = st0.t[list(q1), c1]
                     t[:, c2] = st0.t[list(q2), c2]
                     out.append(st0.child(t=t, op=f"lorder({c1},{''.join(map(str, q1))})({c2},{''.join(map(str, q2))})"))
+    # library-made variants (the library's own operations must hand back meshes on which every element is conforming)
+    if not heavy or st0.nt <= 4:
+        m0 = st0.build()
+        libs = []
+        try:
+            libs.append(('refined()', m0.refined()))
+        except NotImplementedError:
+            pass
+        if kind in ('line', 'tri', 'tet'):
+            libs.append(('refined([0])', m0.refined(np.array([0]))))
+            if nt >= 2:
+                libs.append((f'refined([0,{nt - 1}]).refined([1])', m0.refined(np.array([0, nt - 1])).refined(np.array([1]))))
+        if kind == 'quad':
+            libs.append(('to_meshtri()', m0.to_meshtri()))
+            libs.append(("to_meshtri(style='x')", m0.to_meshtri(style='x')))
+        if kind in ('tri', 'tet'):
+            libs.append(('mirrored(e0)', m0.mirrored(tuple([1.] + [0.] * (st0.p.shape[0] - 1)))))
+        for lab_, mm in libs:
+            if mm.t.shape[1] <= (24 if not heavy else 8):
+                out.append(ms.from_mesh(mm, hist=st0.hist + (lab_,)))
     # dedup on bytes
     seen, res = set(), []
     for s in out:
